@@ -58,6 +58,15 @@ def check_chart(ctx: Ctx, case) -> None:
     spec = case["spec"]
     tm = TempoModel(case["res"], case["tempo"])
     text = S.render(spec)
+    # a sibling chart (same tempo events, another resolution) is parsed first and stays alive: charts share
+    # no state, whatever they have in common
+    sibling = None
+    if len(text) % 3 == 0:
+        try:
+            sibling = L.parse(S.render({"res": case["res"] * 2 + 1, "sync": spec["sync"], "events": spec["events"],
+                                        "tracks": {}}))
+        except Exception:  # noqa: BLE001  (not under test)
+            sibling = None
     try:
         chart = L.parse(text)
     except Exception as e:  # noqa: BLE001
@@ -172,8 +181,13 @@ def check_query(ctx: Ctx, case) -> None:
     # a second chart with another tempo map, alive and queried in lock-step (no shared lookup state)
     stempo = [[t, n + 1 + n // 3] for t, n in case["tempo"]]
     try:
-        shadow = L.parse(S.render({"res": case["res"], "sync": [[0, "TS", 4]] + [[t, "B", n] for t, n in stempo],
-                                   "events": [], "tracks": {}})).sync_track.bpm_events
+        if len(case["ticks"]) % 2:
+            shadow = L.parse(S.render({"res": case["res"], "sync": [[0, "TS", 4]] + [[t, "B", n] for t, n in stempo],
+                                       "events": [], "tracks": {}})).sync_track.bpm_events
+        else:   # same tempo events, another resolution
+            shadow = L.parse(S.render({"res": case["res"] * 2 + 1,
+                                       "sync": [[0, "TS", 4]] + [[t, "B", n] for t, n in case["tempo"]],
+                                       "events": [], "tracks": {}})).sync_track.bpm_events
     except Exception:  # noqa: BLE001
         shadow = None
     for t in case["ticks"]:
